@@ -2,8 +2,8 @@
 # builds the instrumented libfiber + runtime + fiber-regime driver into $OUT
 set -e
 REPO=${REPO:-/repo}
-OUT=${OUT:-/verif/build/fiber}
-V=/verif
+OUT=${OUT:-$(cd "$(dirname "$0")/.." && pwd)/build/fiber}
+V=${V:-$(cd "$(dirname "$0")/.." && pwd)}
 mkdir -p $OUT
 INST="-std=gnu11 -O1 -g -fno-inline -fno-omit-frame-pointer -fsanitize=thread --param tsan-distinguish-volatile=1"
 DEFS="-DFIBER_STACK_MALLOC -DFIBER_FAST_SWITCHING -DLIBFIBER_VERIF -DNDEBUG -D_GNU_SOURCE"
